@@ -23,9 +23,9 @@
 (*    the imported value has the digest that was exported (a field that    *)
 (*    does not survive serialisation changes it);                          *)
 (*  - End only without error, after the action's own export              *)
-(*    (ExportBeforeReturn), the fact of a checker being the annotation     *)
-(*    record that annotationreader computed for that package, and all      *)
-(*    config results of a run being equal;                                 *)
+(*    (ExportBeforeReturn), and all config results of a run being equal;   *)
+(*    (what a fact contains is not prescribed - only that it arrives as    *)
+(*    it was exported; its sufficiency is judged by the diagnostics)       *)
 (*  - Finish only when no action is still running (a crash leaves one).    *)
 (***************************************************************************)
 EXTENDS Integers, Sequences, FiniteSets, TLC, Json
@@ -92,8 +92,6 @@ TraceEnd ==
   /\ <<E.pid, E.a, E.p>> \in running
   /\ ~Has(E, "err")
   /\ E.a \in FactAnalyzers => \E x \in exported : x[1] = E.a /\ x[2] = E.p
-  /\ E.a = "annotationreader" => <<E.a, E.p, E.res>> \in exported
-  /\ E.a \in Checkers => \A x \in exported : (x[1] = E.a /\ x[2] = E.p) => <<E.p, x[3]>> \in annDig
   /\ annDig' = IF E.a = "annotationreader" THEN annDig \cup {<<E.p, E.res>>} ELSE annDig
   /\ cfgs' = IF E.a = "config" THEN cfgs \cup {E.res} ELSE cfgs
   /\ E.a = "config" => Cardinality(cfgs \cup {E.res}) = 1
